@@ -31,12 +31,30 @@ INFEASIBLE = {
 def c17_1(ctx):
     ex = ctx.cache.setdefault("ex", EX(ctx.p, extra_resolve=netbind.make_resolver(ctx)))
     f = ctx.func(MSG, "MessageSigner.verify_message")
-    escs = ex.escapes(f)
+    # what applications call is network.msg.verify: whatever the network factory binds there is an entry point as well (a
+    # wrapper around verify_message owes the same totality)
+    entries = [f]
+    nb = netbind.build(ctx)
+    for c in ast.walk(nb["factory"].node):
+        if isinstance(c, ast.Call) and isinstance(c.func, ast.Name) and c.func.id == "NetworkMsg":
+            for k in c.keywords:
+                if k.arg != "verify":
+                    continue
+                if isinstance(k.value, ast.Attribute) and k.value.attr == "verify_message":
+                    ctx.ok("msg.verify-binding", sample={"network.msg.verify": norm(k.value)})
+                    continue
+                tg = nb["targets_of"](k.value)
+                if not tg:
+                    ctx.undecided("msg.verify-binding", ctx.where(nb["factory"], k.value), "network.msg.verify is bound to `%s`, which this rule cannot resolve to a function" % norm(k.value)[:60])
+                for t in tg:
+                    if t is not f and t not in entries:
+                        entries.append(t)
+    escs = [e for ent in entries for e in ex.escapes(ent)]
     for e in escs:
         owner = attributed(ctx.p, e)        # code moved into a new helper keeps the disposition of the function it came from
         why = INFEASIBLE.get((e.exc, owner)) or next((w for (ent, exc, fn), w in PARSE_INFEASIBLE.items() if exc == e.exc and fn == owner), None)
         ctx.check(why is not None, "escape:%s:%s" % (e.exc, e.func.split(".")[-1]), e.where,
-                  "MessageSigner.verify_message can raise %s (from %s: `%s`, via %s): malformed or unrecoverable signature text must yield False"
+                  "the message verifier (MessageSigner.verify_message / what network.msg.verify is bound to) can raise %s (from %s: `%s`, via %s): malformed or unrecoverable signature text must yield False"
                   % (e.exc, e.func.split(".", 1)[-1], e.what[:70], " -> ".join(v.split(".")[-1] for v in e.via[:6]) or "itself"),
                   what="escape:%s:%s" % (e.exc, e.func), sample={"exception": e.exc, "raised_in": e.func, "construct": e.what[:80], "disposition": why})
     ctx.ok("verify_message analysed", sample={"raw_escapes": len(escs)})
